@@ -36,8 +36,8 @@ def run(chk):
     out_u = vlib.out_path("c06u")
     out_e = vlib.out_path("c06e")
     env = {"VERIF_SEED": chk.seed, "VERIF_TIER": chk.tier}
-    rc1, o1 = vlib.go_test(".", "^TestVerifC06Unit$", dict(env, VERIF_OUT=out_u))
-    rc2, o2 = vlib.go_test(".", "^TestVerifC06E2E$", dict(env, VERIF_OUT=out_e), timeout=1800)
+    rc1, o1 = vlib.go_test(".", "^TestVerifC06Unit$", dict(env, VERIF_OUT=out_u), tags=["c06"])
+    rc2, o2 = vlib.go_test(".", "^TestVerifC06E2E$", dict(env, VERIF_OUT=out_e), timeout=1800, tags=["c06"])
     unit = vlib.read_jsonl(out_u)
     e2e = vlib.read_jsonl(out_e)
     vlib.cleanup(out_u)
@@ -114,7 +114,7 @@ def run(chk):
             if not found_input else None
     chk.finish(
         level="proof",
-        rule="unit: generated + exhaustive (len<=6 over {0..3}, W in 1..3) arrival sequences through the replay "
+        rule="unit: generated + exhaustive (len<=5 quick / 6 thorough over {0..3}, W in 1..3) arrival sequences through the replay "
              "detector; e2e: real handshakes in a synctest bubble, server writes n payloads, captured records "
              "delivered to the client in scripted order. Non-trivial = at least one arrival accepted and one rejected; "
              "distinct by (window, arrival sequence).",
